@@ -46,10 +46,19 @@ type c05Handler struct {
 	transport.TransportHandler
 	established []link.Link
 	lost        []link.Link
+	// onLost runs once inside the next HandleLinkLost callback (what another goroutine may do meanwhile)
+	onLost func()
 }
 
 func (h *c05Handler) HandleLinkEstablished(l link.Link) { h.established = append(h.established, l) }
-func (h *c05Handler) HandleLinkLost(l link.Link)        { h.lost = append(h.lost, l) }
+func (h *c05Handler) HandleLinkLost(l link.Link) {
+	h.lost = append(h.lost, l)
+	if h.onLost != nil {
+		f := h.onLost
+		h.onLost = nil
+		f()
+	}
+}
 
 var c05CertN byte
 
